@@ -228,7 +228,7 @@ def run(ctx):
     for (g, nf, rows, bundle) in ([(3, 3, 1, True), (4, 1, 0, False)] if q else
                                   [(3, 1, 2, True), (3, 2, 1, False), (3, 3, 1, True), (4, 2, 1, False), (4, 4, 2, True),
                                    (3, 6, 2, False), (5, 1, 1, False), (4, 6, 0, True)]):
-        consts = w2_scene(rnd, g, nf, rows, bundle)
+        consts = w2_scene(rnd, g, nf, rows, bundle, nclouds=3 if q else 12)
         r = ctx.tlc("Gen_EdgeQuery", vlib.cfg(init="InitW2", next_="NextW2", constants=consts,
                                               invariants=["EmitW2", "GridLoopsSimple"]), workers=4, timeout=600)
         cases += r.tagged.get("CASE", [])
